@@ -8,6 +8,7 @@ require (
 	github.com/blakesmith/ar v0.0.0-20190502131153-809d4375e1fb
 	github.com/rs/zerolog v1.33.0
 	github.com/sassoftware/relic/v8 v8.0.0
+	github.com/spf13/cobra v1.8.1
 	software.sslmate.com/src/go-pkcs12 v0.5.0
 )
 
@@ -81,7 +82,6 @@ require (
 	github.com/rogpeppe/go-internal v1.12.0 // indirect
 	github.com/rs/xid v1.5.0 // indirect
 	github.com/sassoftware/go-rpmutils v0.4.0 // indirect
-	github.com/spf13/cobra v1.8.1 // indirect
 	github.com/spf13/pflag v1.0.5 // indirect
 	github.com/streadway/amqp v1.1.0 // indirect
 	github.com/ulikunitz/xz v0.5.12 // indirect
